@@ -816,7 +816,11 @@ class World:
                     raise Violation(f"alias {where} -> {node.target_path!r} got resolved to something else than the object at that path",
                                     repr(rt), repr(want))
                 want = before
+            stamp = node.stamp
             self.bind(node, want)
+            # when the real alias got resolved is unknown (any earlier lookup can have done it): keep the old logical time, so
+            # that a later re-binding further down the chain still counts as "after this alias was bound"
+            node.stamp = stamp
             rec.count("implicit_resolutions_adopted")
         elif rt is None:
             # the model took the alias for bound, the real one is (still / again) unresolved: an unresolved alias breaks
@@ -1004,7 +1008,10 @@ def gen_history(rng: random.Random, rec, length: int) -> tuple[list, dict]:  # n
             where, key = address((*cparts, name))
             opt: dict = {}
             if kind == "alias_str":
-                opt = {"target": rng.choice(STRING_TARGETS)}
+                # (a string alias naming its own path is never generated: the constructor accepts it, nothing can ever be
+                # said about what it points at, and what "pointed at the replaced object" means for it is undefined)
+                own = ".".join((*cparts, name))
+                opt = {"target": rng.choice([t for t in STRING_TARGETS if t != own])}
             elif kind == "alias_obj":
                 tparts, _t = rng.choice(nodes)
                 opt = {"target": ".".join(tparts), "ctor_parent": rng.random() < 0.4}
